@@ -107,6 +107,15 @@ class Inner(pydantic.BaseModel):
     m: Optional[Model] = None
 
 
+class Aliased(pydantic.BaseModel):
+    """A model whose fields have aliases: its dict form is keyed by the field names."""
+
+    model_config = pydantic.ConfigDict(populate_by_name=True)
+
+    user_id: int = pydantic.Field(alias="userId")
+    note: str = pydantic.Field(default="n", serialization_alias="Note")
+
+
 @dataclasses.dataclass
 class DC:
     a: int
@@ -156,7 +165,8 @@ ANNOTS: Dict[str, Any] = {
     "Union[bool, int, float]": Union[bool, int, float], "Union[int, str]": Union[int, str],
     "none": None, "Any": Any, "int": int, "str": str, "float": float, "bool": bool,
     "List[int]": List[int], "Optional[int]": Optional[int], "Dict[str, int]": Dict[str, int],
-    "Model": Model, "Inner": Inner, "DC": DC, "DC2": DC2, "DCF": DCF, "Optional[Model]": Optional[Model],
+    "Model": Model, "Inner": Inner, "DC": DC, "DC2": DC2, "DCF": DCF, "Optional[Model]": Optional[Model], "Aliased": Aliased,
+    "Optional[Union[int, Model]]": Optional[Union[int, Model]], "Union[int, str, None]": Union[int, str, None],
     "List[Model]": List[Model],
 }
 
@@ -192,7 +202,7 @@ def enc(v: Any) -> Any:
 def dec(v: Any) -> Any:
     if isinstance(v, dict):
         if "$inst" in v:
-            cls = {"Model": Model, "Inner": Inner, "DC": DC, "DC2": DC2, "DCF": DCF}[v["$inst"]]
+            cls = {"Model": Model, "Inner": Inner, "DC": DC, "DC2": DC2, "DCF": DCF, "Aliased": Aliased}[v["$inst"]]
             return cls(**{k: dec(x) for k, x in v["kw"].items()})
         return {k: dec(x) for k, x in v.items()}
     if isinstance(v, list):
@@ -218,6 +228,8 @@ def _gen_value_for(rng: random.Random, ann: str) -> Any:
             return DC2(items=[1, 2], inner=DC(a=1))
         if c < 0.33:
             return DCF(key=rng.choice([1, True, 2]), payload=rng.choice(["first", "second", "third"]))
+        if c < 0.36:
+            return Aliased(userId=rng.randint(1, 9))
         if c < 0.35:
             return Inner(v=1.5, m=Model(x=1))
         return gen_json_tree(rng)
@@ -243,6 +255,12 @@ def _gen_value_for(rng: random.Random, ann: str) -> Any:
                            {"v": "bad"}, {"m": None}, 7])
     if ann == "DC":
         return rng.choice([DC(a=1), DC(a=2, b="ü"), {"a": 3}, {"a": "4", "b": "x"}, {"a": "bad"}, {"b": "only"}, 5, []])
+    if ann == "Aliased":
+        return rng.choice([Aliased(userId=7), Aliased(user_id=9, note="q"), {"user_id": "3"}, {"userId": 4}, {"note": "only"}, 5])
+    if ann == "Optional[Union[int, Model]]":
+        return rng.choice([5, "7", Model(x=1), {"x": 2, "name": "q"}, {"x": "bad"}, "str", 2.0])
+    if ann == "Union[int, str, None]":
+        return rng.choice([5, "5", "abc", 1.5, True, [1]])
     if ann == "DCF":
         return rng.choice([DCF(key=1, payload="first"), DCF(key=1, payload="second"), DCF(key=True, payload="third"), DCF(key=2),
                            {"key": "1", "payload": "p"}, {"key": "x"}, 4])
@@ -297,6 +315,9 @@ def gen_c08_case(rng: random.Random) -> Dict[str, Any]:
             if cand:
                 name = rng.choice(cand)
         params.append({"name": name, "ann": ann, "kwonly": kwonly, "default": bool(default)})
+        if default and ann == "none" and rng.random() < 0.4:
+            # a default says nothing about the type of what callers send
+            params[-1]["default_val"] = rng.choice([3, 2.5, False, 0])
         pi += 1
     # supplied arguments
     positional_ok = []
@@ -362,7 +383,7 @@ def _dep_int() -> int:
 
 def build_fn(case: Dict[str, Any]) -> Any:
     ns: Dict[str, Any] = {"Any": Any, "List": List, "Optional": Optional, "Dict": Dict, "Union": Union, "Model": Model,
-                          "Inner": Inner, "DC": DC, "DC2": DC2, "DCF": DCF, "Context": Context, "PayloadI": PayloadI,
+                          "Inner": Inner, "DC": DC, "DC2": DC2, "DCF": DCF, "Aliased": Aliased, "Context": Context, "PayloadI": PayloadI,
                           "PayloadS": PayloadS, "PayloadL": PayloadL, "RowI": RowI, "RowS": RowS, "TaskiqDepends": TaskiqDepends,
                           "_REC": _REC, "_dep_plain": _dep_plain, "_dep_int": _dep_int, "int": int, "str": str, "float": float, "bool": bool}
     parts = []
@@ -393,7 +414,7 @@ def build_fn(case: Dict[str, Any]) -> Any:
             names.append(p["name"])
         else:
             a = "" if p["ann"] == "none" else f": {p['ann']}"
-            d = " = 'DEFAULT'" if p["default"] else ""
+            d = f" = {p.get('default_val', 'DEFAULT')!r}" if p["default"] else ""
             parts.append(f"{p['name']}{a}{d}")
             names.append(p["name"])
     if "star" in va and not star_done:
@@ -547,7 +568,7 @@ def _run_c08_inner(case: Dict[str, Any], fn: Any, src: str, broker: Any, early_r
             else:
                 want = "dep-value" if s is None else expected_value("str" if p["dep"] == "dep_ann" else "none", dec(s["v"]), case["fmt"], case["validate"])
         elif s is None:
-            want = "DEFAULT"
+            want = p.get("default_val", "DEFAULT")
         else:
             want = expected_value(p["ann"], dec(s["v"]), case["fmt"], case["validate"])
         g = got[p["name"]]
